@@ -1,0 +1,142 @@
+// Copyright 2026 The Go Authors. All rights reserved.
+// Use of this source code is governed by a BSD-style
+// license that can be found in the LICENSE file.
+
+//go:build verif
+
+package ssh
+
+import "io"
+
+// Verification hooks (build tag "verif" only): a real mux (newMux, unchanged)
+// over a packet connection supplied by the conformance harness, plus read-only
+// accessors for the per-channel flow-control state.
+
+// VerifMuxPacketConn is the exported twin of the unexported packetConn
+// interface. ReadPacket must never return an empty packet with a nil error
+// (the real transport guarantees that).
+type VerifMuxPacketConn interface {
+	WritePacket(packet []byte) error
+	ReadPacket() ([]byte, error)
+	Close() error
+}
+
+type verifMuxConn struct{ c VerifMuxPacketConn }
+
+func (v verifMuxConn) writePacket(p []byte) error  { return v.c.WritePacket(p) }
+func (v verifMuxConn) readPacket() ([]byte, error) { return v.c.ReadPacket() }
+func (v verifMuxConn) Close() error                { return v.c.Close() }
+
+// VerifMux wraps a real mux.
+type VerifMux struct{ m *mux }
+
+// VerifMuxNew starts a real mux (newMux) over c.
+func VerifMuxNew(c VerifMuxPacketConn) *VerifMux { return &VerifMux{m: newMux(verifMuxConn{c})} }
+
+// OpenChannel is mux.OpenChannel.
+func (v *VerifMux) OpenChannel(chanType string, extra []byte) (Channel, <-chan *Request, error) {
+	return v.m.OpenChannel(chanType, extra)
+}
+
+// SendRequest is mux.SendRequest.
+func (v *VerifMux) SendRequest(name string, wantReply bool, payload []byte) (bool, []byte, error) {
+	return v.m.SendRequest(name, wantReply, payload)
+}
+
+// IncomingChannels is the stream of channels opened by the peer.
+func (v *VerifMux) IncomingChannels() <-chan NewChannel { return v.m.incomingChannels }
+
+// IncomingRequests is the stream of global requests sent by the peer.
+func (v *VerifMux) IncomingRequests() <-chan *Request { return v.m.incomingRequests }
+
+// Wait is mux.Wait: it blocks until the loop has exited and returns its error.
+func (v *VerifMux) Wait() error { return v.m.Wait() }
+
+// Close is mux.Close.
+func (v *VerifMux) Close() error { return v.m.Close() }
+
+// VerifChanState is a snapshot of the flow-control state of one channel.
+type VerifChanState struct {
+	LocalID, RemoteID  uint32
+	RemoteWin          uint32 // remoteWin.win: bytes we may still send
+	MaxRemotePayload   uint32
+	MyWindow           uint32 // bytes the peer may still send
+	MyConsumed         uint32 // bytes consumed and not yet credited back
+	MaxIncomingPayload uint32
+	WriteWaiters       int
+}
+
+func verifChanOf(c interface{}) *channel {
+	switch x := c.(type) {
+	case *channel:
+		return x
+	case *extChannel:
+		return x.ch
+	}
+	return nil
+}
+
+// VerifChanGetState reads the flow-control state of c (a Channel or a
+// NewChannel obtained from a mux), each part under its own lock.
+func VerifChanGetState(c interface{}) (st VerifChanState, ok bool) {
+	ch := verifChanOf(c)
+	if ch == nil {
+		return st, false
+	}
+	st.LocalID, st.RemoteID = ch.localId, ch.remoteId
+	st.MaxRemotePayload, st.MaxIncomingPayload = ch.maxRemotePayload, ch.maxIncomingPayload
+	ch.remoteWin.L.Lock()
+	st.RemoteWin = ch.remoteWin.win
+	st.WriteWaiters = ch.remoteWin.writeWaiters
+	ch.remoteWin.L.Unlock()
+	ch.windowMu.Lock()
+	st.MyWindow, st.MyConsumed = ch.myWindow, ch.myConsumed
+	ch.windowMu.Unlock()
+	return st, true
+}
+
+// VerifChanClosure reports which parts of channel.close() have taken effect
+// on c: the read buffers are at EOF, writes are refused (sentClose), and
+// window reservations fail.
+func VerifChanClosure(c interface{}) (buffersEOF, sentClose, windowClosed, ok bool) {
+	ch := verifChanOf(c)
+	if ch == nil {
+		return false, false, false, false
+	}
+	ch.pending.Cond.L.Lock()
+	b1 := ch.pending.closed
+	ch.pending.Cond.L.Unlock()
+	ch.extPending.Cond.L.Lock()
+	b2 := ch.extPending.closed
+	ch.extPending.Cond.L.Unlock()
+	ch.writeMu.Lock()
+	sentClose = ch.sentClose
+	ch.writeMu.Unlock()
+	ch.remoteWin.L.Lock()
+	windowClosed = ch.remoteWin.closed
+	ch.remoteWin.L.Unlock()
+	return b1 && b2, sentClose, windowClosed, true
+}
+
+// VerifChanForceClose runs channel.close() on c. The harness uses it only to
+// release its own goroutines after a verdict has been recorded.
+func VerifChanForceClose(c interface{}) {
+	if ch := verifChanOf(c); ch != nil {
+		ch.close()
+	}
+}
+
+// VerifChanExtended returns the reader/writer of an extended data stream of
+// c (channel.Extended), which the Channel interface exposes only for code 1.
+func VerifChanExtended(c Channel, code uint32) io.ReadWriter {
+	ch := verifChanOf(c)
+	if ch == nil {
+		return nil
+	}
+	return ch.Extended(code)
+}
+
+// VerifMuxConstants returns channelWindowSize, channelMaxPacket and chanSize.
+func VerifMuxConstants() (windowSize, maxPacket uint32, chanBuffer int) {
+	return channelWindowSize, channelMaxPacket, chanSize
+}
